@@ -247,6 +247,53 @@ func c16Families(tier string) []explore.Family {
 	if tier == "thorough" {
 		T = S2
 	}
+	// every character of Unicode that has a case mapping (about 2800; for many the mapped character has another
+	// UTF-8 width, e.g. dotless i U+0131 -> I, long s U+017F -> S, U+2C65 -> U+023A), alone, first and last in a
+	// short string, through the filters that work character by character
+	var cased []rune
+	for r := rune(0x80); r <= 0x1FFFF; r++ {
+		if unicode.ToUpper(r) != r || unicode.ToLower(r) != r || unicode.ToTitle(r) != r {
+			cased = append(cased, r)
+		}
+	}
+	caseOps := []string{"upcase", "downcase", "capitalize", "size", "slice01", "truncate1", "capitalize-size"}
+	fams = append(fams, explore.Family{Name: "every-cased-character", Count: int64(len(cased) * 3 * len(caseOps)), Run: func(i int64, r *explore.Rec) {
+		rx := radix{i}
+		op, pos, ch := caseOps[rx.next(len(caseOps))], rx.next(3), cased[rx.next(len(cased))]
+		s := []string{string(ch), string(ch) + "ab", "a" + string(ch)}[pos]
+		c := c16Case{r, "cased:" + op, func() any { return map[string]any{"s": s, "code_point": fmt.Sprintf("U+%04X", ch), "filter": op} }}
+		r.Eval()
+		r.Transition()
+		b := map[string]any{"s": s}
+		rs := runes(s)
+		var o Outcome
+		switch op {
+		case "upcase":
+			o = c16Render("{{ s | upcase }}", b)
+			c.want(o, mapRunes(s, unicode.ToUpper))
+		case "downcase":
+			o = c16Render("{{ s | downcase }}", b)
+			c.want(o, mapRunes(s, unicode.ToLower))
+		case "capitalize":
+			o = c16Render("{{ s | capitalize }}", b)
+			c.want(o, string(unicode.ToUpper(rs[0]))+string(rs[1:]))
+		case "size":
+			o = c16Render("{{ s | size }}", b)
+			c.want(o, strconv.Itoa(len(rs)))
+		case "slice01":
+			o = c16Render("{{ s | slice: 0, 1 }}|{{ s | slice: -1, 1 }}", b)
+			c.want(o, string(rs[0])+"|"+string(rs[len(rs)-1]))
+		case "truncate1":
+			o = c16Render("{{ s | truncate: 1, '' }}", b)
+			c.want(o, string(rs[0]))
+		default:
+			o = c16Render("{{ s | capitalize | size }}|{{ s | upcase | downcase | size }}", b)
+			c.want(o, strconv.Itoa(len(rs))+"|"+strconv.Itoa(len(runes(mapRunes(mapRunes(s, unicode.ToUpper), unicode.ToLower)))))
+		}
+		c.utf8(s, o)
+		r.Class("cased/" + op)
+	}})
+
 	fams = append(fams, explore.Family{Name: "concat", Count: int64(NS * len(T)), Run: func(i int64, r *explore.Rec) {
 		s, t := S[int(i)%NS], T[int(i)/NS]
 		r.Eval()
